@@ -24,14 +24,14 @@ Driver glue for the packaged example simulations (`gexample`, `mgrx`).  Trusted 
   `(obs ((key value)…))` (values as in `gobs`) | `(bool b)` | `(err kind)`;
   `ledger` = `()` (no reward dict yet) | `(((a r)…))`; a call that raised is sent as
   `((err kind) () ())` (no dump: the history ends there);
-* reply `(modelTrace (core full) (core full) pre)`: `specEx` without / with the read-and-reset
-  clause on the model's and on the implementation's trace (1/0; −1: no or unparsable trace), and
-  `exPre` (the hypotheses of the theorems).
+* reply `(modelTrace specOnModel specOnImpl pre)`: `specEx` on the model's and on the
+  implementation's trace (1/0; −1: no or unparsable trace), and `exPre` (the hypotheses of
+  `examples_hist`).
 
 **`(mgrx cfg stat dyn0 kind shuffle mgrTape simTape ops implTrace)`** — a real manager over the
 real example; `ops` = `(r)` | `(s ((agent (dr dc) attack)…))`; entries as in `mgr` with observations
 `(ok ((key value)…))` | `(err kind)`, infos `()`.  Reply
-`(modelTrace c01Model c07Model c01Impl c07Impl (c01NoLedgerModel c01NoLedgerImpl))`.
+`(modelTrace c01Model c07Model c01Impl c07Impl)`.
 -/
 namespace Abmarl
 namespace ExamplesDriver
@@ -148,12 +148,11 @@ def handle (args : List Val) : Option Val := do
     let w0 ← world? stat dyn
     let ops ← (← ops.list?).mapM op?
     let m := (Ex.runOps cfg { w := w0 } ops).1
-    let judge := fun (tr : List EEntry) =>
-      Val.list [b2v (specEx cfg w0 false (zipOps ops tr)), b2v (specEx cfg w0 true (zipOps ops tr))]
+    let judge := fun (tr : List EEntry) => b2v (specEx cfg w0 (zipOps ops tr))
     let is : Val :=
       match (impl.list?).bind (fun l => l.mapM (entry? stat w0)) with
-      | some tr => if tr.isEmpty then .list [.int (-1), .int (-1)] else judge tr
-      | none => .list [.int (-1), .int (-1)]
+      | some tr => if tr.isEmpty then .int (-1) else judge tr
+      | none => .int (-1)
     pure (.list [.list (m.map encEntry), judge m, is, b2v (exPre cfg w0 ops)])
   | _ => none
 
@@ -221,16 +220,6 @@ def encMEntry (e : ME) : Val :=
          .list [Val.ofBool e.ghost.simAllDone, .list (e.ghost.simDone.map Val.ofBool),
                 Val.ofInts e.ghost.pending, Val.ofNats e.ghost.nominated]]
 
-/-- the trace with every reward value, accrual and pending amount erased: `specC01` of it is
-`specC01` without the ledger clause -/
-def eraseLedger (e : ME) : ME :=
-  { e with
-    res := (match e.res with
-            | .stepOk o => .stepOk { o with rewards := o.rewards.map fun p => (p.1, 0) }
-            | r => r),
-    accrued := e.accrued.map fun _ => 0,
-    ghost := { e.ghost with pending := e.ghost.pending.map fun _ => 0 } }
-
 def handleMgr (args : List Val) : Option Val := do
   match args with
   | [cfg, stat, dyn, k, sh, mtape, stape, ops, impl] =>
@@ -246,13 +235,12 @@ def handleMgr (args : List Val) : Option Val := do
     let spec1 := fun (t : List ME) => specC01 k S.n S.learning sh t
     let spec7 := fun (t : List ME) => specC07 k S.n S.learning t
     let implV ← impl.list?
-    let (i1, i7, i1n) : Val × Val × Val :=
-      if implV.isEmpty then (.int (-1), .int (-1), .int (-1))
+    let (i1, i7) : Val × Val :=
+      if implV.isEmpty then (.int (-1), .int (-1))
       else match mzip? ops implV with
-        | some it => (b2v (spec1 it), b2v (spec7 it), b2v (spec1 (it.map eraseLedger)))
-        | none => (.int (-2), .int (-2), .int (-2))
-    pure (.list [.list (tr.map encMEntry), b2v (spec1 tr), b2v (spec7 tr), i1, i7,
-                 .list [b2v (spec1 (tr.map eraseLedger)), i1n]])
+        | some it => (b2v (spec1 it), b2v (spec7 it))
+        | none => (.int (-2), .int (-2))
+    pure (.list [.list (tr.map encMEntry), b2v (spec1 tr), b2v (spec7 tr), i1, i7])
   | _ => none
 
 end ExamplesDriver
